@@ -50,6 +50,9 @@ func checkC19(c *Ctx) {
 	c.Rule("C19-R13", "every key the page reports becomes an event, except the four modifier keys reported on their own (no length or table test stands between a printable character and its KeyRune event)")
 	c.Expect("C19-R13", 1)
 	checkWebKeyAlwaysPosts(c, p, "C19-R13")
+	c.Rule("C19-R14", "the page grid stays equal to the logical contents when the page is cleared: whoever asks for clearScreen (the clear flag) also invalidates the cell buffer on the same path, or every clean cell vanishes from the page")
+	c.Expect("C19-R14", 1)
+	checkClearImpliesInvalidate(c, p, "C19-R14", "wScreen")
 	// R1
 	tpkg := p.pkg("")
 	if tpkg == nil {
